@@ -6,6 +6,7 @@ are Mathlib's `|·|`, `max`, `min`; `tol` is the documented tolerance of a compa
 `tr` behaves like the C++ conversion `I(val)` (truncation toward zero).
 -/
 import DuneVerif.Model.C17
+import DuneVerif.Proofs.C17FP
 import Mathlib.Algebra.Order.Field.Basic
 import Mathlib.Algebra.Order.Ring.Abs
 import Mathlib.Algebra.Order.Ring.Cast
@@ -65,60 +66,20 @@ theorem eqS_symm (s : Style) (a b e : K) : eqS s a b e = eqS s b a e := by
 theorem eqS_refl (s : Style) (a e : K) (h : 0 ≤ e) : eqS s a a e = true := by
   rw [eqS_iff, sub_self, abs_zero]; exact tol_nonneg s a a e h
 
-theorem eqLoop_iff (s : Style) (e : K) : ∀ (a b : List K), a.length = b.length →
-    (eqLoop s a b e = true ↔ ∀ (i : Nat) (ha : i < a.length) (hb : i < b.length), eqS s a[i] b[i] e = true)
-  | [], [], _ => by simp [eqLoop]
-  | [], _ :: _, h => by simp at h
-  | _ :: _, [], h => by simp at h
-  | x :: xs, y :: ys, h => by
-    have hl : xs.length = ys.length := by simpa using h
-    have ih := eqLoop_iff s e xs ys hl
-    cases hE : eqS s x y e
-    · simp only [eqLoop, hE]
-      constructor
-      · intro hf; simp at hf
-      · intro hall
-        have := hall 0 (by simp) (by simp)
-        simp [hE] at this
-    · simp only [eqLoop, hE]
-      constructor
-      · intro hrest i ha hb
-        cases i with
-        | zero => simpa using hE
-        | succ j =>
-          simp only [List.getElem_cons_succ]
-          exact (ih.mp (by simpa using hrest)) j (by simpa using ha) (by simpa using hb)
-      · intro hall
-        have : eqLoop s xs ys e = true := ih.mpr (fun i ha hb => by
-          have := hall (i+1) (by simpa using ha) (by simpa using hb)
-          simpa using this)
-        simpa using this
+/-- in a linear order any two scalars compare in exactly one of the three ways -/
+theorem tri_of_linear (x y : K) : Tri x y := by
+  unfold Tri
+  rcases lt_trichotomy x y with h | h | h
+  · right; left; exact ⟨ne_of_lt h, h, not_lt_of_gt h⟩
+  · left; subst h; exact ⟨rfl, lt_irrefl _, lt_irrefl _⟩
+  · right; right; exact ⟨ne_of_gt h, not_lt_of_gt h, h⟩
 
 /-- the lexicographic `<` of `std::vector` is a strict total order -/
-theorem lexLt_total : ∀ (a b : List K),
+theorem lexLt_total (a b : List K) :
     (a = b ∧ lexLt a b = false ∧ lexLt b a = false) ∨
     (a ≠ b ∧ lexLt a b = true ∧ lexLt b a = false) ∨
-    (a ≠ b ∧ lexLt a b = false ∧ lexLt b a = true)
-  | [], [] => by simp [lexLt]
-  | [], _ :: _ => by simp [lexLt]
-  | _ :: _, [] => by simp [lexLt]
-  | x :: xs, y :: ys => by
-    rcases lt_trichotomy x y with h | h | h
-    · right; left
-      refine ⟨?_, ?_, ?_⟩
-      · intro hc; injection hc with h1 _; exact absurd h1 (ne_of_lt h)
-      · simp [lexLt, h]
-      · simp [lexLt, h, not_lt_of_gt h]
-    · subst h
-      rcases lexLt_total xs ys with ⟨h1, h2, h3⟩ | ⟨h1, h2, h3⟩ | ⟨h1, h2, h3⟩
-      · left; subst h1; simp [lexLt, h2]
-      · right; left; refine ⟨by intro hc; injection hc with _ h4; exact h1 h4, ?_, ?_⟩ <;> simp [lexLt, h2, h3]
-      · right; right; refine ⟨by intro hc; injection hc with _ h4; exact h1 h4, ?_, ?_⟩ <;> simp [lexLt, h2, h3]
-    · right; right
-      refine ⟨?_, ?_, ?_⟩
-      · intro hc; injection hc with h1 _; exact absurd h1.symm (ne_of_lt h)
-      · simp [lexLt, h, not_lt_of_gt h]
-      · simp [lexLt, h]
+    (a ≠ b ∧ lexLt a b = false ∧ lexLt b a = true) :=
+  lexLt_total_of a b (fun x _ y _ => tri_of_linear x y)
 
 /-! ### rounding -/
 
@@ -171,10 +132,10 @@ theorem roundDown_eq (s : Style) {tr : K → Int} (htr : IsTrunc tr) (x e : K) (
   · simp only [hg, if_true] at hlo ⊢
     have ht : tr x = l + 1 := by omega
     simp only [ht, add_sub_cancel_right]
-    push_cast; rfl
+    push_cast; rw [add_sub_cancel_right]
   · simp only [hg, if_false] at hlo ⊢
     simp only [hlo]
-    push_cast; rfl
+    push_cast; rw [add_sub_cancel_right]
 
 theorem roundUp_eq (s : Style) {tr : K → Int} (htr : IsTrunc tr) (x e : K) (l : Int)
     (hl : (l : K) < x) (hu : x < (l : K) + 1) (hne : eqS s ((tr x : Int) : K) x e = false) :
@@ -188,10 +149,10 @@ theorem roundUp_eq (s : Style) {tr : K → Int} (htr : IsTrunc tr) (x e : K) (l 
   · simp only [hg, if_true] at hlo ⊢
     have ht : tr x = l + 1 := by omega
     simp only [ht, add_sub_cancel_right]
-    push_cast; rfl
+    push_cast; rw [add_sub_cancel_right]
   · simp only [hg, if_false] at hlo ⊢
     simp only [hlo]
-    push_cast; rfl
+    push_cast; rw [add_sub_cancel_right]
 
 theorem roundDown_of_eq (s : Style) (tr : K → Int) (x e : K) (h : eqS s ((tr x : Int) : K) x e = true) :
     roundDown s tr x e = tr x := by
